@@ -1278,6 +1278,14 @@ func doWalk(cs *connState, ref *fidRef, names []string, getattr bool) (qids []QI
 				return linux.ENOENT
 			}
 
+			// walkOne may call GetAttr on the file it walked to. That is a
+			// read-class call on the child's own path, so it must exclude
+			// write-class calls there (e.g. SetAttr): hold the child's lock
+			// too, parent before child as in Tunlinkat.
+			childPathNode := walkRef.pathNode.pathNodeFor(names[i])
+			childPathNode.opMu.RLock()
+			defer childPathNode.opMu.RUnlock()
+
 			// Pass getattr = true to walkOne since we need the file type for
 			// newRef.
 			qids, sf, valid, attr, err = walkOne(qids, walkRef.file, names[i:i+1], true)
